@@ -132,7 +132,7 @@ def run(tier, seed):
         ck.violation("harness-build", {"kind": "build"}, {"log": log[-3000:]}, no_input=True)
         return ck.finish()
     rc, out = sh([binp, "-seed", str(seed), "-n", str(n), "-k", str(k)], timeout=3000)
-    recs = [json.loads(ln) for ln in out.split("\n") if ln.startswith("{")]
+    recs = jlines(out)
     calls = [r for r in recs if r["t"] == "call"]
     abis = [r for r in recs if r["t"] == "abi"]
     self_ok = any(r["t"] == "selftest" and r["ok"] for r in recs)
